@@ -396,8 +396,10 @@ def run(ck, w):
     if good:
         s = qa[0][2]
         if "start" in s["rv"]["fields"] and "len" in s["rv"]["fields"]:
-            so = flow.origins_x(lib, pf, rules.field_operand(s, "start"))
-            lo = flow.origins_x(lib, pf, rules.field_operand(s, "len"), through_calls=[r"Try>?::branch$", r"Result::<T, E>::map_err$"])
+            # (a helper may hand the span back as `(len != 0).then_some((start, len))`)
+            so = flow.origins_x(lib, pf, rules.field_operand(s, "start"), through_calls=[r"Try>?::branch$"], through_all=[r"<impl bool>::then_some$|bool::then_some$"])
+            so = {x for x in so if not (x[0] == "arith" and x[1] in ("Ne", "Eq", "Gt", "Lt", "Ge", "Le"))}
+            lo = flow.origins_x(lib, pf, rules.field_operand(s, "len"), through_calls=[r"Try>?::branch$", r"Result::<T, E>::map_err$"], through_all=[r"<impl bool>::then_some$|bool::then_some$"])
         else:
             # another representation of "where this file's bytes lie in the buffer" (a Range, a span struct ...): the position
             # operands taken together - everything that is not the IndexEntry
@@ -406,7 +408,7 @@ def run(ck, w):
                 l_ = flow.operand_local(op_)
                 if l_ is not None and "IndexEntry" in (pf.locals[l_] or ""):
                     continue
-                so |= flow.origins_x(lib, pf, op_, through_calls=[r"Try>?::branch$", r"Result::<T, E>::map_err$"])
+                so |= flow.origins_x(lib, pf, op_, through_calls=[r"Try>?::branch$", r"Result::<T, E>::map_err$"], through_all=[r"<impl bool>::then_some$|bool::then_some$"])
             lo = so
             so = {x for x in so if x[0] != "arith"}       # start..start+len: the sum is the end, not the start
         lens = [e for e in pf.events if e.bb in pf.live and e.name == "bytes::BytesMut::len"]
